@@ -185,14 +185,23 @@ Example C02_perm_nonvacuous :
   In (5, [13; 15; 17]) (arg_red sx 1) /\
   (tget (mkT [2; 3] 2) 0 = 2 /\ tget (mkT [2; 3] 2) 1 = 3 /\ tbatch (mkT [3; 2] 2) = 2) /\
   In (7, (0, 8)) (transpose_fw (mkT [2; 3] 2) (mkT [3; 2] 2)) /\
-  In (3, (7)) (flip_pairs sx 1) /\
+  In (1, 5) (flip_pairs sx 1) /\
   (length perm = 3 /\ Permutation perm (seq 0 3) /\ twf px /\ twf py /\
    tdepth px <= 3 /\ tdepth py <= 3 /\ (forall b, b < 3 -> tget py b = tget px (nth b perm 0))) /\
   In (24 + 13, (0, 24 + 9)) (permute_fw px py perm).
 Proof.
-  cbv zeta. repeat split; try reflexivity; try lia;
-    try (vm_compute; tauto);
-    try (repeat (constructor; [lia|]); constructor).
-  - exact (perm_trans (perm_swap 0 2 [1]) (perm_skip 0 (perm_swap 1 2 []))).
-  - intros b Hb. destruct b as [|[|[|b]]]; try reflexivity; lia.
+  cbv zeta.
+  split; [repeat split; (reflexivity || lia)|].
+  split; [vm_compute; repeat (first [left; reflexivity | right])|].
+  split; [vm_compute; repeat (first [left; reflexivity | right])|].
+  split; [repeat split; reflexivity|].
+  split; [vm_compute; repeat (first [left; reflexivity | right])|].
+  split; [vm_compute; repeat (first [left; reflexivity | right])|].
+  split; [|vm_compute; repeat (first [left; reflexivity | right])].
+  split; [reflexivity|].
+  split; [exact (perm_trans (perm_swap 0 2 [1]) (perm_skip 0 (perm_swap 1 2 [])))|].
+  split; [split; [repeat (constructor; [lia|]); constructor|cbn; lia]|].
+  split; [split; [repeat (constructor; [lia|]); constructor|cbn; lia]|].
+  split; [cbn; lia|]. split; [cbn; lia|].
+  intros b Hb. destruct b as [|[|[|b]]]; try reflexivity; lia.
 Qed.
